@@ -2,7 +2,7 @@
    Every theorem is about the Gallina model coq/C16/Model.v (tied to /repo by ./check C16);
    ids are byte lists, [wf] contexts have a 16-byte trace id and an 8-byte span id (sizes read from /repo),
    [sampled_bit f] is the lowest bit of the flags byte, [decode_id n s] reads 1..2n hex digits left-padded with zeros. *)
-From V Require Import C16.Glue C16.ProofsHex C16.Proofs C16.ProofsSpec.
+From V Require Import C16.Glue C16.ProofsHex C16.Proofs C16.ProofsInto C16.ProofsSpec.
 
 (* "For every valid span context, injecting with the B3 single-header ... propagator and extracting the result yields a
    remote context with the same trace id and span id and the same sampled decision, whatever other flag bits ..." *)
@@ -28,6 +28,21 @@ Theorem jaeger_roundtrip : forall c : span_ctx,
              c_tid c' = c_tid c /\ c_sid c' = c_sid c /\ sampled_bit (c_flags c') = sampled_bit (c_flags c) /\ c_remote c' = true.
 Proof. exact jaeger_roundtrip_lemma. Qed.
 Print Assumptions jaeger_roundtrip.
+
+(* the same round trip when Extract is handed ANY destination context (a list of bindings: whatever span - equal to the
+   injected one, differing in a field, invalid, none - and whatever other values), for each propagator and for
+   CompositePropagator{B3 single, B3 multi, Jaeger}: the span of the returned context is the injected identity marked
+   remote, every other binding of the destination reads as before; an invalid context leaves the destination as it is *)
+Theorem extract_into_any_context :
+  (forall (x : xkind) (c : span_ctx) (dest : context),
+     length (c_tid c) = kTraceIdBytes /\ length (c_sid c) = kSpanIdBytes -> ctx_valid c = true ->
+     let out := roundtrip_into x c dest in
+     c_tid (get_span out) = c_tid c /\ c_sid (get_span out) = c_sid c /\
+     sampled_bit (c_flags (get_span out)) = sampled_bit (c_flags c) /\ c_remote (get_span out) = true /\
+     (forall key, key <> k_span -> ctx_get key out = ctx_get key dest)) /\
+  (forall (x : xkind) (c : span_ctx) (dest : context), ctx_valid c = false -> roundtrip_into x c dest = dest).
+Proof. exact extract_into_any_context_lemma. Qed.
+Print Assumptions extract_into_any_context.
 
 (* an invalid context injects nothing; extraction from the untouched carrier returns the caller's context *)
 Theorem invalid_not_injected : forall k c, ctx_valid c = false -> inject k c = [] /\ roundtrip k c = None.
@@ -120,6 +135,14 @@ Theorem model_meets_spec_roundtrip : forall k c,
   spec_roundtrip k c (option_map obs_of (roundtrip k c)) true = [].
 Proof. exact model_meets_spec_roundtrip_lemma. Qed.
 Print Assumptions model_meets_spec_roundtrip.
+
+Theorem model_meets_spec_into : forall x c d n,
+  length (c_tid c) = kTraceIdBytes /\ length (c_sid c) = kSpanIdBytes -> n <= 9 ->
+  spec_roundtrip_into x c n
+    (option_map obs_of (observed_span (make_dest d n) (roundtrip_into x c (make_dest d n)))) true
+    (Z.of_nat (keys_intact n (roundtrip_into x c (make_dest d n)))) = [].
+Proof. exact model_meets_spec_into_lemma. Qed.
+Print Assumptions model_meets_spec_into.
 
 (* on the wire format: for every parsable case line, the SPEC run on the model's output line reports nothing *)
 Theorem model_meets_spec : forall l, parse_case l <> None -> run_spec l (run_model l) = [].
